@@ -25,7 +25,7 @@ from ..catalog import KINDS
 from ..seams import quiet
 
 PROP = 'C11'
-TIERS = {'quick': 9000, 'thorough': 100000}
+TIERS = {'quick': 9000, 'thorough': 1200000}
 RULE = ('ops runs: 10-60 seeded construction operations over 1-4 parents, names from a 5-name pool; integrity runs: '
         'catalogue netlists of 3-25 blocks with every input driven, then the same netlist with one driver omitted or '
         'duplicated; non-trivial = at least one operation was (correctly) refused and at least one accepted, or an '
